@@ -1,3 +1,4 @@
+import RossModel.Lemmas.SourceTie
 import RossModel.Lemmas.ExactLength
 import RossModel.Lemmas.Layout
 import RossModel.Lemmas.Applies
@@ -60,5 +61,10 @@ theorem C05_layoutLen_spec (pad : Pad) (e : Event) : (encode pad e).data.length 
 example : decode .data ⟨false, 0x0101, []⟩ = .err .wrongSize ∧
     decode .message ⟨false, 1, [0, 12, 0x12, 0x34, 0, 7, 7, 0, 0, 0, 0, 0, 0, 0]⟩ = .err .unknownEnumVariant ∧
     decode .message ⟨false, 1, [0, 12, 0x12, 0x34, 0, 7, 3, 0, 0, 0, 2, 0, 0, 0]⟩ = .err .unknownEnumVariant := by decide
+
+/-! ### tie to the source text (constants regenerated from /repo by `bin/extract` on every run) -/
+/-- the size guard at the head of every decoder in `src/event/*.rs` is the model's `sizeOk`; the brightness and relay
+variant tables are the model's -/
+theorem C05_src_guards : (SrcTie.sizeGuardsOk && SrcTie.bcmTagsOk && SrcTie.relayTagsOk && SrcTie.constUseOk) = true := by decide
 
 end Ross.Props
